@@ -344,6 +344,35 @@ async fn run_scenario(sc: &Scenario) -> Value {
     out
 }
 
+/// The mock accepting a connection does not mean the driver's pool already holds it (the handshake may still be under way,
+/// slowly on a busy machine). Requests without a token go to a random node on a random connection of its pool: they are sent
+/// until every pool connection the mock has open has carried one (at most 3 s), so that the recorded executions start
+/// from pools the DRIVER knows to be complete.
+async fn warm_up(session: &scylla::client::session::Session, mock: &MockCluster) {
+    let t0 = Instant::now();
+    let mut sent = 0;
+    let (mut last_used, mut last_progress) = (0usize, 0);
+    loop {
+        let log = mock.log();
+        let control = control_conns(&log);
+        let used: std::collections::HashSet<u64> = log.iter().filter(|e| e["dir"] == "in" && e["opcode"] == 7 && e["query"].as_str().is_some_and(|q| q.contains("ks.t"))).filter_map(|e| e["conn"].as_u64()).collect();
+        let nodes = mock.config().nodes.len();
+        let all_used = (0..nodes).all(|i| mock.open_connections(i).iter().all(|(id, _, _)| control.contains(id) || used.contains(id)));
+        if used.len() > last_used {
+            last_used = used.len();
+            last_progress = sent;
+        }
+        // (connections of nodes the policy never uses for such requests stay unused: stop when 96 requests reached no new one)
+        if (all_used && sent > 0) || t0.elapsed() > Duration::from_secs(3) || sent > 4000 || sent - last_progress >= 96 {
+            break;
+        }
+        for _ in 0..8 {
+            let _ = session.query_unpaged("SELECT v FROM ks.t", ()).await;
+            sent += 1;
+        }
+    }
+}
+
 async fn run_with_mock(sc: &Scenario, mock: &MockCluster) -> Value {
     use scylla::client::PoolSize;
     use scylla::client::execution_profile::ExecutionProfile;
@@ -397,6 +426,8 @@ async fn run_with_mock(sc: &Scenario, mock: &MockCluster) -> Value {
         }
     };
 
+    warm_up(&session, mock).await;
+
     if std::env::var("C12_VERBOSE").is_ok() {
         // Diagnostics only (stderr): the driver's own token of each key as 8 LE limbs, next to the scenario's.
         for (pk, tok) in &sc.keys {
@@ -426,6 +457,7 @@ async fn run_with_mock(sc: &Scenario, mock: &MockCluster) -> Value {
             }
             tokio::time::sleep(Duration::from_millis(20)).await;
         }
+        warm_up(&session, mock).await;
     }
 
     // Down nodes.
